@@ -183,6 +183,11 @@ func (f *FProtocol) ReadResponseHeader(ctx FContext) error {
 func (f *FProtocol) writeHeader(headers map[string]string) error {
 	buff := writeMarshaler.marshalHeaders(headers)
 	if n, err := f.Transport().Write(buff); err != nil {
+		if IsErrTooLarge(err) {
+			// keep the size-limit error recognisable for callers (REQUEST_TOO_LARGE
+			// on the client, trapError on the server)
+			return err
+		}
 		return thrift.NewTTransportException(TRANSPORT_EXCEPTION_UNKNOWN,
 			fmt.Sprintf("frugal: error writing protocol headers in writeHeader: %s", err))
 	} else if n != len(buff) {
